@@ -3,6 +3,7 @@
 //   sshist g=<generator> ops=<op;op;…>               => [x<i>=unicode_error] [r<i>=<to_string result>] s<i>=<snapshot> … end=<leak|clean>
 //   ssfault g=… ops=<prefix ops> op=<op> k=<n>       => as sshist for the prefix, then the last op with its k-th allocation failing:
 //                                                       f=<completed|bad_alloc|unicode_error> sf=<snapshot> end=…
+//   a history that a C++ program may not perform (member call on a dead stream, …; only shrinking produces these) => inadmissible
 // ops: D<o> ctor | X<o> dtor | M<o>,<s> move ctor | m<o>,<s> move assign
 //      a<o>:<hex> append(ptr,size) | z<o>:<hex|N> append(cstr) | g<o>,<n>,<seed> append(ptr,n) of LCG bytes | c<o>,<count>,<ch> append_char
 //      t<o>,<n> truncate(n) | u<o> truncate() | e<o>,<n> erase(n) | s<o>,<utf8>,<a|s|c|d> to_string
@@ -206,6 +207,19 @@ struct SPool {
         } catch (const ST::unicode_error &) { threw = true; }
     }
 
+    // may a C++ program perform this operation now?  (no member call on a dead stream, no construction over a live one,
+    // no self-move-assignment: outside the property)
+    bool admissible(const Prep &p) const {
+        int o = p.o, src = (int)p.a1;
+        if (o < 0 || o >= NOBJ) return false;
+        switch (p.c) {
+        case 'D': return !live[o];
+        case 'M': return !live[o] && src >= 0 && src < NOBJ && live[src];
+        case 'm': return live[o] && src >= 0 && src < NOBJ && live[src] && src != o;
+        default: return live[o];
+        }
+    }
+
     void destroy_all() { CountScope scope; for (int o = 0; o < NOBJ; ++o) if (live[o]) { at(o)->~SS(); live[o] = false; } }
 };
 
@@ -219,7 +233,9 @@ static std::string run_hist(const Args &a) {
     for (const auto &op : ops) {
         ++step;
         bool threw = false; std::string result;
-        { Prep p; prepare(p, op); pool.invoke(p, -1, threw, result); }
+        { Prep p; prepare(p, op);
+          if (!pool.admissible(p)) { pool.destroy_all(); alloc_ctl().live = live_before; return "inadmissible"; }
+          pool.invoke(p, -1, threw, result); }
         if (threw) out += "x" + std::to_string(step) + "=unicode_error ";
         if (!result.empty()) out += "r" + std::to_string(step) + "=" + result + " ";
         out += "s" + std::to_string(step) + "=" + pool.snapshot() + " ";
@@ -229,6 +245,7 @@ static std::string run_hist(const Args &a) {
         std::string res = "completed";
         {
             Prep p; prepare(p, a.get("op"));
+            if (!pool.admissible(p)) { pool.destroy_all(); alloc_ctl().live = live_before; return "inadmissible"; }
             bool threw = false; std::string result;
             try { pool.invoke(p, k, threw, result); if (threw) res = "unicode_error"; }
             catch (const std::bad_alloc &) { res = "bad_alloc"; }
